@@ -58,6 +58,12 @@ def cases():
         for lit in ("int:0", "int:1", "int:5", "int:-1", "int:-3", "int:max", "int:max+1", "int:min", "int:min-1", "Null", "Full", "True", "str"):
             for f in LIT_FORMS:
                 out.append({"src": ["lit", lit], "tgt": list(t), "form": f})
+    # two DIFFERENT literals assigned to the same target in the two branches of an if/else (each branch must keep its own)
+    for t in T:
+        pairs = [("int:1", "int:0"), ("Null", "Full"), ("int:max", "int:1"), ("int:min", "int:max"), ("Full", "int:1"), ("str", "Null")] if t[0] != "Bit" else [("True", "Null"), ("Full", "Null")]
+        for la, lb in pairs:
+            for f in ("assign", "next", "var", "value", "push", "pushattr", "element"):
+                out.append({"src": ["lit2", la, lb], "tgt": list(t), "form": f})
     return out
 
 
@@ -90,6 +96,10 @@ def expected(c):
     s, t, f = tuple(c["src"]), tuple(c["tgt"]), c["form"]
     if f in ("ite", "ret", "port"):
         return "either"
+    if s[0] == "lit2":
+        ea = expected({"src": ["lit", s[1]], "tgt": c["tgt"], "form": "assign"})
+        eb = expected({"src": ["lit", s[2]], "tgt": c["tgt"], "form": "assign"})
+        return "accept" if ea == eb == "accept" else "either"
     if s[0] == "lit":
         lit = s[1]
         if lit in ("Null", "Full"):
@@ -130,6 +140,8 @@ def preserved(s, t, sv, tv):
 
 def render_src(c):
     s, t, f = tuple(c["src"]), tuple(c["tgt"]), c["form"]
+    if s[0] == "lit2":
+        return render_two_literals(c)
     lit = s[0] == "lit"
     H = ["from __future__ import annotations", "import cohdl", "from cohdl import Bit, BitVector, Unsigned, Signed, Port, Signal, Variable, Null, Full, true, false", "from cohdl import std", ""]
     src = lit_value(s[1], t)[0] if lit else "self.s"
@@ -182,7 +194,61 @@ def render_src(c):
     return "\n".join(H + ["        " + l for l in B]) + "\n"
 
 
+def render_two_literals(c):
+    s, t, f = tuple(c["src"]), tuple(c["tgt"]), c["form"]
+    la, lb = lit_value(s[1], t)[0], lit_value(s[2], t)[0]
+    H = ["from __future__ import annotations", "import cohdl", "from cohdl import Bit, BitVector, Unsigned, Signed, Port, Signal, Variable, Null, Full, true, false", "from cohdl import std", "", "class E(cohdl.Entity):", "    clk = Port.input(Bit)", "    c = Port.input(Bit)", f"    t0 = Port.input({tstr(t)})"]
+    H.append(f"    o = Port.output({tstr(t)}, default=Null)" if f in ("push", "pushattr") else f"    o = Port.output({tstr(t)})")
+    H += ["", "    def architecture(self):"]
+    clk = "@std.sequential(std.Clock(self.clk))"
+    op = {"assign": "self.o <<= {x}", "next": "self.o.next = {x}", "var": "v @= {x}", "value": "v.value = {x}", "push": "self.o ^= {x}", "pushattr": "self.o.push = {x}", "element": "arr[1] <<= {x}"}[f]
+    B = []
+    if f in ("var", "value"):
+        B.append(f"v = Variable[{tstr(t)}](Null)")
+    if f == "element":
+        B.append(f"arr = Signal[cohdl.Array[{tstr(t)}, 2]](Null)")
+    B += [clk, "def p():"]
+    if f == "var":
+        B.append("    nonlocal v")
+    B += ["    if self.c:", "        " + op.format(x=la), "    else:", "        " + op.format(x=lb)]
+    if f in ("var", "value"):
+        B.append("    self.o <<= v")
+    if f == "element":
+        B += ["@std.concurrent", "def q():", "    self.o <<= arr[1]"]
+    return "\n".join(H + ["        " + l for l in B]) + "\n"
+
+
+def lit_pattern(lit, t):
+    wt = W(t)
+    _, v = lit_value(lit, t)
+    return (1 << wt) - 1 if lit == "Full" else v & ((1 << wt) - 1)
+
+
+def simulate_two_literals(c, design, seed, idx):
+    s, t, f = tuple(c["src"]), tuple(c["tgt"]), c["form"]
+    rs = rng.Stream(seed, "C05", "vals", idx)
+    d = dutm.Dut(design, rng.derive(seed, "C05", "order", idx), "c05")
+    d.start({"c": 1, "t0": 0})
+    want = {1: lit_pattern(s[1], t), 0: lit_pattern(s[2], t)}
+    checked = 0
+    for k in range(8):
+        cv = rs.below(2) if k > 1 else k
+        for _ in range(2):  # registered forms need a second edge with the same branch
+            d.clock({"c": cv, "t0": 0})
+            d.half()
+        got = d.get("o")
+        checked += 1
+        if got != want[cv]:
+            return "value-not-preserved", {"branch_taken": "if" if cv else "else", "literal": s[1] if cv else s[2], "expected_pattern": want[cv], "target_pattern": got, "target": tstr(t), "form": f}, checked
+    pr = d.problems()
+    if pr:
+        return pr[0], pr[1], checked
+    return "ok", {}, checked
+
+
 def simulate(c, design, seed, idx):
+    if c["src"][0] == "lit2":
+        return simulate_two_literals(c, design, seed, idx)
     s, t, f = tuple(c["src"]), tuple(c["tgt"]), c["form"]
     rs = rng.Stream(seed, "C05", "vals", idx)
     d = dutm.Dut(design, rng.derive(seed, "C05", "order", idx), "c05")
@@ -287,6 +353,8 @@ def finding_key(r):
     def cls(a, b):
         if a[0] == "lit":
             return "literal " + a[1]
+        if a[0] == "lit2":
+            return "two literals"
         rel = "equal" if W(tuple(a)) == W(tuple(b)) else ("narrower" if W(tuple(a)) < W(tuple(b)) else "wider")
         return f"{a[0]}->{b[0]}:{rel}-source"
 
